@@ -47,14 +47,34 @@ type vc18pConn struct {
 	release chan struct{}
 	drain   chan struct{}
 
+	// shape is how the handler treats the queries of this connection:
+	// vc18pBlockThenWrite parks before it answers, vc18pWriteThenBlock answers
+	// first and keeps working (parked on the same gate) afterwards, the way
+	// the real handler chain records the query after the response is out;
+	// vc18pMixed alternates by query ID.
+	shape int
+
 	mu       sync.Mutex
 	inflight int
 	max      int
 	entered  int
 	left     int
-	remotes  map[string]bool
-	changed  chan struct{}
+	// afterWrite is the number of queries that are inside the handler with
+	// their response already written; maxAfterWriteFull is the largest such
+	// number seen while the pipeline was full.
+	afterWrite        int
+	maxAfterWriteFull int
+	remotes           map[string]bool
+	changed           chan struct{}
 }
+
+const (
+	vc18pBlockThenWrite = iota
+	vc18pWriteThenBlock
+	vc18pMixed
+)
+
+var vc18pShapeNames = []string{"block-then-write", "write-then-block", "mixed"}
 
 func (c *vc18pConn) bump() {
 	select {
@@ -98,18 +118,40 @@ func (h *vc18pH) ServeDNS(ctx context.Context, rw dnsserver.ResponseWriter, req 
 	c.mu.Unlock()
 	c.bump()
 
+	// A query is in work from the entry of the handler to its return, whenever
+	// the response is written in between.
+	writeFirst := c.shape == vc18pWriteThenBlock || (c.shape == vc18pMixed && req.Id%2 == 1)
+	if writeFirst {
+		err = rw.WriteMsg(ctx, req, resp)
+
+		c.mu.Lock()
+		c.afterWrite++
+		if c.inflight >= c.limit {
+			c.maxAfterWriteFull = max(c.maxAfterWriteFull, c.afterWrite)
+		}
+		c.mu.Unlock()
+		c.bump()
+	}
+
 	select {
 	case <-c.release:
 	case <-c.drain:
 	}
 
+	if !writeFirst {
+		err = rw.WriteMsg(ctx, req, resp)
+	}
+
 	c.mu.Lock()
 	c.inflight--
 	c.left++
+	if writeFirst {
+		c.afterWrite--
+	}
 	c.mu.Unlock()
 	c.bump()
 
-	return rw.WriteMsg(ctx, req, resp)
+	return err
 }
 
 type vc18pSrv struct {
@@ -212,9 +254,9 @@ func vc18pInconclusive(t *rapid.T, format string, args ...any) {
 
 func TestVerifC18Pipeline(t *testing.T) {
 	st := vstat.New("C18", "pipeline.bursts",
-		"rapid bursts of 1..20 pipelined queries on one connection to a real ServerDNS (TCP) or ServerTLS with MaxPipelineCount 1..4 and a handler parked on a harness channel, released in drawn batches; written in one piece, per message or in odd chunks; optional client close in mid-burst; non-trivial = burst larger than the limit; distinct by (transport, limit, burst, write mode, release plan)",
+		"rapid bursts of 1..20 pipelined queries on one connection to a real ServerDNS (TCP) or ServerTLS with MaxPipelineCount 1..4 and a handler parked on a harness channel (before it answers, or after it has answered and while it is still running, or alternating; a query is in work from handler entry to handler return), released in drawn batches; written in one piece, per message or in odd chunks; optional client close in mid-burst; non-trivial = burst larger than the limit; distinct by (transport, limit, burst, write mode, release plan)",
 		"burst>limit", "burst<=limit", "burst=limit", "burst=limit+1", "tcp", "tls", "saturated-with-backlog", "early-close", "early-reset",
-		"second-connection-full-while-first-full")
+		"second-connection-full-while-first-full", "handler-still-running-after-its-response-was-written-with-pipeline-full")
 	st.Finish(t)
 
 	env := &vc18pEnv{
@@ -245,6 +287,7 @@ func vc18pCase(t *rapid.T, st *vstat.Stats, env *vc18pEnv, grace time.Duration) 
 	earlyClose := rapid.IntRange(0, 7).Draw(t, "earlyClose") == 0
 	reset := rapid.Bool().Draw(t, "reset")
 	companion := rapid.IntRange(0, 3).Draw(t, "companion") == 0
+	shape := rapid.IntRange(0, 2).Draw(t, "handlerShape")
 
 	srv, err := env.server(useTLS, limit, 0)
 	if err != nil {
@@ -259,6 +302,7 @@ func vc18pCase(t *rapid.T, st *vstat.Stats, env *vc18pEnv, grace time.Duration) 
 	c := &vc18pConn{
 		id:      id,
 		limit:   limit,
+		shape:   shape,
 		release: make(chan struct{}, burst),
 		drain:   make(chan struct{}),
 		remotes: map[string]bool{},
@@ -271,7 +315,7 @@ func vc18pCase(t *rapid.T, st *vstat.Stats, env *vc18pEnv, grace time.Duration) 
 
 	var plan []int
 	desc := func() string {
-		return fmt.Sprintf("tls=%t limit=%d burst=%d write=%s earlyClose=%t releases=%v", useTLS, limit, burst, writeMode, earlyClose, plan)
+		return fmt.Sprintf("tls=%t limit=%d burst=%d write=%s handler=%s earlyClose=%t releases=%v", useTLS, limit, burst, writeMode, vc18pShapeNames[shape], earlyClose, plan)
 	}
 
 	// Connect.
@@ -563,6 +607,25 @@ func vc18pCase(t *rapid.T, st *vstat.Stats, env *vc18pEnv, grace time.Duration) 
 			t.Fatalf("%s: not every query was answered exactly once after release: read error %v, %d distinct ids, %v", desc(), rerr, ids, bad)
 		}
 
+		// With a handler that answers first, the responses are all there
+		// before the handlers have returned; they have all been let go, so
+		// wait for them.
+		for end := time.Now().Add(vc18pWait); ; {
+			_, _, left := state()
+			if left >= burst {
+				break
+			}
+
+			if time.Now().After(end) {
+				vc18pInconclusive(t, "%s: only %d of %d released queries left the handler within %s", desc(), left, burst, vc18pWait)
+			}
+
+			select {
+			case <-c.changed:
+			case <-time.After(time.Millisecond):
+			}
+		}
+
 		entered, inflight, left := state()
 		if entered != burst || inflight != 0 || left != burst {
 			t.Fatalf("%s: %d queries entered the handler, %d left, %d in flight; sent %d", desc(), entered, left, inflight, burst)
@@ -571,6 +634,17 @@ func vc18pCase(t *rapid.T, st *vstat.Stats, env *vc18pEnv, grace time.Duration) 
 
 	if stallDrained {
 		classes = append(classes, "stalled-then-drained")
+	}
+
+	classes = append(classes, "handler:"+vc18pShapeNames[shape])
+	c.mu.Lock()
+	afterWriteFull := c.maxAfterWriteFull
+	c.mu.Unlock()
+	if afterWriteFull > 0 && burst > limit {
+		classes = append(classes, "handler-still-running-after-its-response-was-written-with-pipeline-full")
+		if afterWriteFull >= limit {
+			classes = append(classes, "all-slots-held-by-answered-queries")
+		}
 	}
 
 	nt := ""
@@ -598,6 +672,7 @@ func vc18pCompanion(
 	desc func() string,
 ) (classes []string) {
 	n := rapid.IntRange(1, limit+3).Draw(t, "companionBurst")
+	shape := rapid.IntRange(0, 2).Draw(t, "companionShape")
 
 	env.mu.Lock()
 	env.nextID++
@@ -607,6 +682,7 @@ func vc18pCompanion(
 	c := &vc18pConn{
 		id:      id,
 		limit:   limit,
+		shape:   shape,
 		release: make(chan struct{}, n),
 		drain:   make(chan struct{}),
 		remotes: map[string]bool{},
